@@ -79,6 +79,101 @@ def geometric_seeds(P):
     }
 
 
+def extra_seeds(spec):
+    """Families outside the single-mesh pool: fields on elements with sub-degree 0 < super-degree (they are NOT piecewise
+    constant), and one expression over two meshes of different geometric dimension."""
+    from checks.common import coef, mesh
+    from vlib import elements as el_
+
+    key = spec["key"]
+    if spec["family"] == "subdeg":
+        dom = mesh(spec["cell"], spec["gdim"])
+        c, g = dom.ufl_cell(), dom.geometric_dimension
+        ue = ufl.Coefficient(ufl.FunctionSpace(dom, el_.Enriched(c, 1)), count=650)
+        we = ufl.Coefficient(ufl.FunctionSpace(dom, el_.Enriched(c, 1, (g,))), count=651)
+        ve = ufl.Argument(ufl.FunctionSpace(dom, el_.Enriched(c, 1)), 0)
+        u = coef(dom, (), count=652)
+        x = ufl.SpatialCoordinate(dom)
+        # key -> (derivative-free operand F, constructor applied to F, requested value by definition: a function
+        #         (den, comp) -> value written with derivatives of F's components only)
+        D = lambda den, F, comp, *dirs: den.pure_derivative(F, comp, tuple(("x", i) for i in dirs), (), None)  # noqa: E731
+
+        def curl_def(den, F, comp):
+            if g == 2:
+                return D(den, F, (1,), 0) - D(den, F, (0,), 1)
+            (k,) = comp
+            a_, b_ = (k + 1) % 3, (k + 2) % 3
+            return D(den, F, (b_,), a_) - D(den, F, (a_,), b_)
+
+        def sum_(vals):
+            r = vals[0]
+            for v in vals[1:]:
+                r = r + v
+            return r
+
+        E = {"grad_u": (ue, grad, lambda den, comp: D(den, ue, (), comp[0])),
+             "dx_u": (ue, lambda F: F.dx(0), lambda den, comp: D(den, ue, (), 0)),
+             "div_w": (we, div, lambda den, comp: sum_([D(den, we, (i,), i) for i in range(g)])),
+             "grad_w": (we, grad, lambda den, comp: D(den, we, (comp[0],), comp[1])),
+             "curl_w": (we, curl, lambda den, comp: curl_def(den, we, comp)),
+             "grad_uu": (ue * u, grad, lambda den, comp: D(den, ue * u, (), comp[0])),
+             "div_xw": (x[0] * we, div, lambda den, comp: sum_([D(den, x[0] * we, (i,), i) for i in range(g)])),
+             "grad_sin": (ufl.sin(ue), grad, lambda den, comp: D(den, ufl.sin(ue), (), comp[0])),
+             "nabla_grad_w": (we, nabla_grad, lambda den, comp: D(den, we, (comp[1],), comp[0])),
+             "grad_arg": (ve * ue, grad, lambda den, comp: D(den, ve * ue, (), comp[0])),
+             "gradgrad_u": (ue, lambda F: grad(grad(F)), lambda den, comp: D(den, ue, (), comp[0], comp[1]))}
+        return dom, E[key]
+    if spec["family"] == "twomesh":
+        d2, d3 = mesh("triangle", 2), mesh("triangle", 3)
+        x2, x3 = ufl.SpatialCoordinate(d2), ufl.SpatialCoordinate(d3)
+        u2, u3 = coef(d2, (), count=653), coef(d3, (), count=654)
+        w3 = coef(d3, (3,), count=655)
+        E = {"divx2_divx3": div(x2) * div(x3), "divx3_divx2": div(x3) * div(x2), "gradx3": grad(x3)[2, 2] * grad(x2)[1, 1],
+             "div_u3x3": div(u3 * x3) * div(u2 * x2), "gradu_both": grad(u2)[1] * grad(u3)[2] + grad(u3)[0] * grad(u2)[0],
+             "div_w3_gradu2": div(w3) * grad(u2 * u2)[0], "const_grad": grad(ufl.Constant(d2) * u2)[1] * grad(ufl.Constant(d3) * u3)[2]}
+        return d2, E[key]
+    raise KeyError(spec["family"])
+
+
+def run_subdeg(spec):
+    """The derivative *constructors* have shortcuts of their own (derivative of a piecewise constant is Zero): the
+    requested derivative is written here from the operand's jets, not from the object the constructor returned."""
+    import itertools
+
+    from ufl.algorithms import expand_derivatives
+    from vlib import solve
+    from vlib.denote import Denoter
+
+    name = spec["name"]
+    dom, (F, make, want_of) = extra_seeds(spec)
+    sample = f"{spec['key']} of a field on an element with sub-degree 0 < super-degree 1: {str(F)[:100]}"
+    try:
+        built = make(F)
+        out = expand_derivatives(built)
+    except Exception as ex:  # noqa: BLE001
+        return outcome(name, "violated", detail=f"building / expanding the derivative raised {type(ex).__name__}: {str(ex)[:120]}",
+                       sample=sample, witness={"exception": repr(ex)[:200]})
+    sample += f"  ==>  {str(out)[:200]}"
+    den = Denoter(Env())
+    try:
+        pairs = [(want_of(den, comp), den.ev(out, comp, {}, (), None)) for comp in itertools.product(*[range(n) for n in out.ufl_shape])]
+        diffs = solve.flatten_diffs(pairs)
+    except Exception as ex:  # noqa: BLE001
+        return outcome(name, "inconclusive", detail=f"denotation: {type(ex).__name__}: {ex}", sample=sample)
+    from vlib import lemmas
+
+    li, _ = lemmas.instances(diffs)
+    r = solve.prove_all_zero(diffs, (), 60, li, label=name)
+    ok, bad = solve.discharge_lemmas(60)
+    st = r.status if not (r.status == "proved" and bad) else "inconclusive"
+    if st == "proved":
+        badd = only_terminal_derivatives(out)
+        if badd:
+            return outcome(name, "violated", detail=badd, sample=sample, witness={"structural": badd})
+    return outcome(name, st, stage=r.stage, detail=r.detail or ("derivative differs from the derivative of the operand" if st == "violated" else ""),
+                   witness=r.witness, sample=sample)
+
+
 def only_terminal_derivatives(e):
     from ufl.corealg.traversal import unique_pre_traversal
 
@@ -110,6 +205,20 @@ def run(spec):
     from ufl.algorithms import expand_derivatives
 
     name = spec["name"]
+    if spec["family"] == "subdeg":
+        return run_subdeg(spec)
+    if spec["family"] in ("twomesh",):
+        from ufl.algorithms import expand_derivatives
+
+        dom, e = extra_seeds(spec)
+        r0 = repr(e)
+        out = expand_derivatives(e)
+        res = [tv.compare(name, e, out, Env(), timeout=60, in_repr=r0)]
+        if res[0]["status"] == "proved":
+            bad = only_terminal_derivatives(out)
+            if bad:
+                res[0] = outcome(name, "violated", detail=bad, sample=res[0].get("sample"), witness={"structural": bad})
+        return res
     P, e = build(spec)
     if e is None:
         return outcome(name, "rejected", detail="operator not applicable to this operand")
@@ -166,6 +275,11 @@ def specs(tier):
                         continue
                     add(family="pool", cell=cell, gdim=g, kind=kind, key=key, op=op, order=2, timeout=120,
                         twin=(key == "u*u" and op == "div.grad"))
+    for cell, g in (("triangle", 2), ("tetrahedron", 3)):
+        for key in ("grad_u", "dx_u", "div_w", "grad_w", "curl_w", "grad_uu", "div_xw", "grad_sin", "nabla_grad_w", "grad_arg", "gradgrad_u"):
+            add(family="subdeg", cell=cell, gdim=g, key=key)
+    for key in ("divx2_divx3", "divx3_divx2", "gradx3", "div_u3x3", "gradu_both", "div_w3_gradu2", "const_grad"):
+        add(family="twomesh", key=key)
     for cell, g in (("triangle", 2), ("tetrahedron", 3), ("triangle", 3)):
         for key in geometric_seeds(Pool(cell, g)):
             add(family="geom", cell=cell, gdim=g, key=key, twin=(key == "grad_X0u"))
